@@ -1,7 +1,7 @@
 (* Entry points of the executable model, by name. One dispatcher so that the OCaml driver and
    the in-Coq case files need no per-function glue. *)
 From Coq Require Import ZArith NArith List String Bool.
-From Sia Require Import Prim.Result Prim.Tok Currency.Model Merkle.Tree Merkle.Update Merkle.UpdateProofs Merkle.Forest Merkle.Acc Merkle.Rhp Policy.Model Pow.Model Codec.Schema Codec.Shape Codec.Irregular Gen.Schemas Codec.Wire Ledger.Types Ledger.Mid Ledger.Validate Ledger.Apply Ledger.Kinds Ledger.Fresh Merkle.StorageProof Hash.Ids Merkle.Multi Gateway.Outline Rhp4.Model Codec.Size Gen.Limits Codec.Framing Text.Hex Text.Currency Text.PolicyText Text.Forms.
+From Sia Require Import Prim.Result Prim.Tok Currency.Model Merkle.Tree Merkle.Update Merkle.UpdateProofs Merkle.Forest Merkle.Acc Merkle.Rhp Policy.Model Pow.Model Codec.Schema Codec.Shape Codec.Irregular Gen.Schemas Codec.Wire Ledger.Types Ledger.Mid Ledger.Validate Ledger.Apply Ledger.Kinds Ledger.Fresh Ledger.Fresh2 Merkle.StorageProof Hash.Ids Merkle.Multi Gateway.Outline Rhp4.Model Codec.Size Gen.Limits Codec.Framing Text.Hex Text.Currency Text.PolicyText Text.Forms.
 Import ListNotations.
 Open Scope string_scope.
 Open Scope list_scope.
@@ -487,7 +487,7 @@ Section Dispatch.
         match op, v with
         | 1%nat, Ok _ =>
           match apply_block net s b with
-          | Ok (s', m) => t_res_code v ++ t_summary s' ++ t_mid (Z.of_nat (List.length (s_leaves s))) m ++ [tbool (Kinds.consistent (Kinds.declsB b)); tbool (Fresh.fresh_sc b)] ++ run_steps net (s' :: stack) rest
+          | Ok (s', m) => t_res_code v ++ t_summary s' ++ t_mid (Z.of_nat (List.length (s_leaves s))) m ++ [tbool (Kinds.consistent (Kinds.declsB b)); tbool (Fresh.fresh_sc b); tbool (Fresh2.fresh_sf b); tbool (Fresh2.fresh_v2 b)] ++ run_steps net (s' :: stack) rest
           | Err c => [TZ 1; TZ c; TZ (-4)]
           | Panic p => [TZ 2; TZ (pan_code p); TZ (-4)] ++ run_steps net stack rest
           end
